@@ -13,7 +13,9 @@
   exactly these obligations.
 -/
 import RotoV.Model.RegistrationDeclType
+import RotoV.Lemmas.RegistrationTypeIndex
 import RotoV.Generated.DeclType
+import RotoV.Generated.DeclRuntimeType
 
 namespace RotoV.C18
 open RotoV.Reg RotoV.Reg.Src
@@ -93,23 +95,155 @@ theorem declare_type_registered_rust_type_rejected (st : St) (scope : ScopeId) (
 /-- `NamesOfTypes` is an invariant of registration: the entry `declare_type`
     pushes keeps the two indexes in step. -/
 theorem names_of_types_insert (st : St) (hn : NamesOfTypes st) (id : TyId) (nm : RName)
-    (hfree : st.types id = none) : NamesOfTypes (st.insertType id nm) := by
-  intro k
-  simp only [St.insertType]
-  by_cases hk : k = nm
-  · subst hk; simp only [if_true]
-    exact ⟨fun _ => ⟨id, by simp⟩, fun _ => trivial⟩
-  · simp only [hk, if_false]
-    rw [hn k]
-    constructor
-    · rintro ⟨i, hi⟩
-      refine ⟨i, ?_⟩
-      have : i ≠ id := by rintro rfl; rw [hfree] at hi; cases hi
-      simp [this, hi]
-    · rintro ⟨i, hi⟩
-      by_cases hid : i = id
-      · subst hid; simp at hi; exact absurd hi.symm hk
-      · simp [hid] at hi; exact ⟨i, hi⟩
+    (hfree : st.types id = none) : NamesOfTypes (st.insertType id nm) :=
+  namesOfTypes_insertType st hn id nm hfree
+
+/-! ## `NamesOfTypes` is a fact about every reachable runtime, not a hypothesis
+
+  (growth round, branch wt-h18)  `declare_type_guards_as_modelled` assumed the
+  invariant that ties the model's two indexes of `Vec<RuntimeType>`; it was
+  proved kept by the one entry `declare_type` pushes and never established.
+  `Lemmas/RegistrationTypeIndex.lean` establishes it for the initial runtime
+  and carries it through `register` (closed form of pass 2) and histories. -/
+
+/-- **The initial runtime has the invariant** when no Rust type is listed as a
+    primitive under two names (the built-in library registers each primitive
+    once; the harness's table is `u64 u32 String bool`). -/
+theorem names_of_types_init (prims : List (Name × TyId)) (others : List Name)
+    (hone : ∀ p ∈ prims, ∀ q ∈ prims, p.2 = q.2 → p.1 = q.1) : NamesOfTypes (St.init prims others) :=
+  namesOfTypes_init prims others hone
+
+/-- … and the side condition is needed: one Rust type listed under two names is
+    found by its first name only, the second name answers `typeNames` without
+    any entry of `types` carrying it. -/
+theorem names_of_types_init_needs_one_name :
+    ¬ NamesOfTypes (St.init [(1, 100), (2, 100)] []) := by
+  intro h
+  obtain ⟨id, hid⟩ := (h ⟨[], 2⟩).1 (by decide)
+  simp only [St.init] at hid
+  by_cases h100 : id = 100
+  · subst h100; simp at hid
+  · have : List.find? (fun p : Name × TyId => decide (p.2 = id)) [(1, 100), (2, 100)] = none := by
+      simp [List.find?, Ne.symm h100]
+    rw [this] at hid; cases hid
+
+/-- **Every successful registration keeps it** (any library, any lexer verdict,
+    any well-formed runtime): only pass 2 writes the two indexes, one entry per
+    `type` item, each for a Rust type that had none. -/
+theorem names_of_types_register (lex : Name → Lex) (st st' : St) (hw : WF st) (hn : NamesOfTypes st)
+    (items : Items) (h : register Cfg.fixed lex st items = .ok st') : NamesOfTypes st' :=
+  namesOfTypes_register lex st st' hw hn items h
+
+/-- **… and every history of adds** on the initial runtime, rejected adds included. -/
+theorem names_of_types_history (lex : Name → Lex) (prims : List (Name × TyId)) (others : List Name)
+    (hone : ∀ p ∈ prims, ∀ q ∈ prims, p.2 = q.2 → p.1 = q.1) (libs : List Items) :
+    NamesOfTypes (session Cfg.fixed lex (St.init prims others) libs).1 :=
+  (namesOfTypes_session lex libs _ (wf_init prims others) (namesOfTypes_init prims others hone)).2
+
+/-- **The guards of `declare_type` = the model's two early exits, on every
+    runtime a host can reach** (full form of `declare_type_guards_as_modelled`:
+    no hypothesis on the runtime is left).  After ANY history of libraries
+    offered to the initial runtime, for every scope, identifier and Rust type:
+    some registered entry trips a regenerated guard iff the model's
+    `declareType` takes its `typeTwice` exit or its first `nameTaken` exit. -/
+theorem declare_type_guards_as_modelled_reachable (lex : Name → Lex) (prims : List (Name × TyId))
+    (others : List Name) (hone : ∀ p ∈ prims, ∀ q ∈ prims, p.2 = q.2 → p.1 = q.1)
+    (libs : List Items) (scope : ScopeId) (n : Name) (id : TyId) :
+    SomeEntryRejects guards (session Cfg.fixed lex (St.init prims others) libs).1 scope n id ↔
+      (((session Cfg.fixed lex (St.init prims others) libs).1.types id).isSome = true ∨
+        (session Cfg.fixed lex (St.init prims others) libs).1.typeNames ⟨scope, n⟩ = true) :=
+  declare_type_guards_as_modelled _ (names_of_types_history lex prims others hone libs) scope n id
+
+/-- the harness's initial runtime: `u64 u32 String bool` (names 0–3) as Rust types 100–103 -/
+def harnessPrims : List (Name × TyId) := [(0, 100), (1, 101), (2, 102), (3, 103)]
+
+theorem harnessPrims_one_name : ∀ p ∈ harnessPrims, ∀ q ∈ harnessPrims, p.2 = q.2 → p.1 = q.1 := by
+  decide
+
+/-- non-vacuity: the initial runtime of the correspondence run has the invariant -/
+example : NamesOfTypes (St.init harnessPrims [4, 5]) :=
+  names_of_types_init _ _ harnessPrims_one_name
+
+/-- non-vacuity of the history form: a library that registers Rust type 7 as
+    `Meters` (name 6) in module 9 is accepted, and afterwards the same Rust type
+    under the same identifier at the root trips a guard *through an entry that
+    the history itself pushed*. -/
+example : SomeEntryRejects guards
+    (session Cfg.fixed (fun _ => ⟨some (some .ident), false, true⟩) (St.init harnessPrims [4, 5])
+      [.cons (.module 9 (.cons (.type 6 7) .nil)) .nil]).1 [] 6 7 := by
+  rw [declare_type_guards_as_modelled_reachable _ _ _ harnessPrims_one_name]
+  left
+  decide
+
+/-! ## `TypeChecker::declare_runtime_type`, read from the source (target `declrtype`)
+
+  (growth round, branch wt-h18)  What `declare_type` hands an accepted
+  registration to was hand-modelled and tied by the correspondence run only.
+  Its decisions — where the "primitive shortcut" looks (own scope, own
+  identifier, NOT through the enclosing scopes: the `recurse` argument of
+  `resolve_name`, which was `true` on the pinned tree, defect (e)), for which
+  kinds of definition it applies, that it declares nothing, and that otherwise
+  the registration's own name is inserted with a clash propagated — are
+  regenerated as `Generated/DeclRuntimeType.lean` on every run. -/
+
+/-- **`declare_runtime_type` is written as modelled.** -/
+theorem declare_runtime_type_as_modelled : RotoV.Gen.DeclRuntimeType.facts = declRtAsModelled := by decide
+
+/-- the model's configuration read from that source is the one all theorems are about -/
+theorem declare_runtime_type_source_cfg : RotoV.Gen.DeclRuntimeType.facts.cfg = Cfg.fixed := by decide
+
+/-- **A free name is declared where it is registered, whatever the enclosing
+    scopes hold** (on the configuration read from the source; all runtimes,
+    scopes, identifiers, Rust types): if the Rust type is not registered and
+    the resolved name is free in its own scope, `declare_type` succeeds and the
+    runtime gains the declaration `scope::n` owning the scope `scope ++ [n]`
+    and the entry `(id, scope::n)` — in particular for a type named like a
+    primitive that lives in an enclosing scope. -/
+theorem declare_type_free_name_declared_on_source (st : St) (scope : ScopeId) (n : Name) (id : TyId)
+    (h1 : st.types id = none) (h2 : st.typeNames ⟨scope, n⟩ = false) (h3 : st.decls ⟨scope, n⟩ = none) :
+    declareType RotoV.Gen.DeclRuntimeType.facts.cfg scope n id st =
+      .ok ((st.insertDecl ⟨scope, n⟩ ⟨.type id, some (scope ++ [n])⟩).insertType id ⟨scope, n⟩) := by
+  rw [declare_runtime_type_source_cfg]
+  simp [declareType, Cfg.fixed, h1, h2, h3]
+
+/-- … and a taken name that is not a primitive's is a name clash, never
+    swallowed by the shortcut (on the configuration read from the source). -/
+theorem declare_type_taken_name_rejected_on_source (st : St) (scope : ScopeId) (n : Name) (id : TyId)
+    (d : Decl) (h1 : st.types id = none) (h3 : st.decls ⟨scope, n⟩ = some d) (hk : d.kind ≠ .prim) :
+    declareType RotoV.Gen.DeclRuntimeType.facts.cfg scope n id st = .err .nameTaken := by
+  rw [declare_runtime_type_source_cfg]
+  cases h2 : st.typeNames ⟨scope, n⟩ <;> simp [declareType, Cfg.fixed, h1, h2, h3, hk]
+
+def lexAll : Name → Lex := fun _ => ⟨some (some .ident), false, true⟩
+def stHarness : St := St.init harnessPrims [4, 5]
+
+/-- non-vacuity: `mod m { type u64 = M7 }` next to `impl M7 { fn f }` — the
+    type is its own declaration in the module and the method resolves at
+    `m.u64.f` (name 0 is the primitive `u64` at the root) -/
+example : declareType RotoV.Gen.DeclRuntimeType.facts.cfg [9] 0 7 stHarness =
+    .ok ((stHarness.insertDecl ⟨[9], 0⟩ ⟨.type 7, some [9, 0]⟩).insertType 7 ⟨[9], 0⟩) :=
+  declare_type_free_name_declared_on_source _ _ _ _ (by decide) (by decide) (by decide)
+
+example :
+    (match register RotoV.Gen.DeclRuntimeType.facts.cfg lexAll stHarness
+        (.cons (.module 9 (.cons (.type 0 7) .nil)) (.cons (.impl 7 (.cons (.function 8 [] .unit 1) .nil)) .nil)) with
+     | .ok st => resolvePath st [9, 0, 8]
+     | _ => none) = some ⟨.method [] .unit 1, none⟩ := by decide
+
+example : declareType RotoV.Gen.DeclRuntimeType.facts.cfg [] 4 7 stHarness = .err .nameTaken :=
+  declare_type_taken_name_rejected_on_source _ _ _ _ ⟨.other, none⟩ (by decide) (by decide) (by decide)
+
+/-- **What `recurse = true` does** (the pinned tree's lookup): the shortcut
+    finds the ROOT's primitive from inside a module, so `mod m { type u64 = M7 }`
+    is accepted without any declaration in `m` — the type is usable nowhere
+    at its declared path and an impl block for it panics. -/
+theorem recursive_shortcut_swallows_module_type :
+    (match declareType { Cfg.fixed with primRecursive := true } [9] 0 7 stHarness with
+     | .ok st => decide (st.decls ⟨[9], 0⟩ = none) && decide (st.types 7 = some ⟨[9], 0⟩)
+     | _ => false) = true ∧
+    (register { Cfg.fixed with primRecursive := true } lexAll stHarness
+      (.cons (.module 9 (.cons (.type 0 7) .nil)) (.cons (.impl 7 .nil) .nil))).isPanic = true := by
+  decide
 
 /-! ## non-vacuity, and what a narrowed guard does -/
 
